@@ -184,6 +184,11 @@ func (s *sim) killInst(inst int) {
 // enter is called by adapter code at the start of every call. Background processes park until granted.
 func (s *sim) enter(p *proc, kind string, deadline int64) int {
 	if p == nil {
+		if s.cur != nil {
+			// an adapter call made while a background process is being stepped, but not under the context its role
+			// scheduler handed out (API operations are only issued between process steps)
+			s.trace = append(s.trace, "API=-2")
+		}
 		return s.decide(nil, kind)
 	}
 	if s.dead[p.inst] || p.gone {
